@@ -101,8 +101,9 @@ func transcripts() []transcript {
 }
 
 type env struct {
-	w   *hx.W
-	srv *kit.Server
+	w        *hx.W
+	srv      *kit.Server
+	nHostile int
 }
 
 type fault struct {
@@ -208,6 +209,8 @@ func (e *env) runTranscript(t *transcript, f fault) outcome {
 	}
 	// 4. no panic
 	e.checkPanics(sig, desc)
+	// 5. no goroutine of this connection left
+	e.census(sig, desc)
 	return outcome{nIn: r.S.NRead(), nOut: r.S.NWritten()}
 }
 
@@ -224,6 +227,74 @@ func (e *env) leak(sig, desc, what string) {
 }
 
 var panicsSeen int
+
+// census: at a quiescent point (the connection under test is closed) no goroutine may
+// still be inside an imapserver.(*Conn) method. Goroutines are given a bounded time to
+// finish; one that stays at the same place is a leak.
+var reportedLeaks = map[string]bool{}
+
+func connGoroutines() map[string]string {
+	buf := make([]byte, 4<<20)
+	buf = buf[:runtime.Stack(buf, true)]
+	out := map[string]string{}
+	for _, g := range strings.Split(string(buf), "\n\n") {
+		if strings.Contains(g, "imapserver.(*Conn).") {
+			id := g
+			if i := strings.IndexByte(g, '['); i > 0 {
+				id = g[:i]
+			}
+			out[id] = g
+		}
+	}
+	return out
+}
+
+func leakSite(g string) string {
+	for _, l := range strings.Split(g, "\n") {
+		if strings.Contains(l, "imapserver.(*Conn).") {
+			site := strings.TrimSpace(l)
+			if i := strings.LastIndex(site, "("); i > 0 {
+				site = site[:i]
+			}
+			return site
+		}
+	}
+	return "?"
+}
+
+var reportedSites = map[string]bool{}
+
+func (e *env) census(sig, desc string) {
+	e.w.Metric("goroutine_censuses", 1)
+	deadline := time.Now().Add(30 * time.Second)
+	var gs map[string]string
+	for {
+		gs = connGoroutines()
+		fresh := false
+		for id, g := range gs {
+			if reportedLeaks[id] {
+				delete(gs, id)
+			} else if !reportedSites[leakSite(g)] {
+				fresh = true
+			}
+		}
+		// a leak at a site that was already reported is not waited for again (it is
+		// re-examined at the next census)
+		if len(gs) == 0 || !fresh || time.Now().After(deadline) {
+			break
+		}
+		time.Sleep(200 * time.Microsecond)
+	}
+	for id, g := range gs {
+		site := leakSite(g)
+		if reportedSites[site] {
+			continue
+		}
+		reportedLeaks[id] = true
+		reportedSites[site] = true
+		e.w.Violation("goroutine-leak@"+site, fmt.Sprintf("%s: a goroutine of the server connection is still alive after the peer is gone and the session was closed (%s)", desc, site), map[string]interface{}{"case": desc, "goroutine": g})
+	}
+}
 
 func (e *env) checkPanics(sig, desc string) {
 	p := e.srv.Log.Panics()
@@ -380,6 +451,10 @@ func (e *env) hostile(class, state string, lines []string, descShort string) {
 		atomic.StoreInt64(&idleRunning, 0)
 	}
 	e.checkPanics(sig, descShort)
+	e.nHostile++
+	if e.nHostile%8 == 0 || strings.Contains(strings.Join(lines, " "), "IDLE") {
+		e.census(sig, descShort)
+	}
 	// literal caps
 	for _, c := range srv.B.CallsSince(nBase) {
 		for name, v := range map[string]string{"mailbox": c.Mailbox, "mailbox2": c.Mailbox2, "username": c.Username, "password": c.Password, "ref": c.ListRef} {
@@ -539,14 +614,21 @@ func body(w *hx.W) {
 		{fmt.Sprintf("APPEND a {%d}", appendLimit+1)}, {fmt.Sprintf("APPEND a {%d+}", appendLimit+1)}, {fmt.Sprintf("APPEND a (\\Seen) {%d}", int64(1)<<40)},
 		{"APPEND a {9223372036854775807+}"}, {"APPEND a {9223372036854775808}"}, {"LOGIN {99999999999999999999}"},
 	}
+	srvPlus := kit.NewServer(kit.ServerCfg{Caps: imap.CapSet{imap.CapIMAP4rev1: {}, imap.CapLiteralPlus: {}}, InsecureAuth: true, Kind: kit.SessFull})
+	srvPlus.B.Handler = handler
+	defer srvPlus.Close()
+	ePlus := &env{w: w, srv: srvPlus}
 	for i, cs := range capCases {
 		if !w.Mine(i) {
 			continue
 		}
 		for _, st := range states {
 			e.hostile("literal-cap", st, cs, hx.Hex([]byte(cs[0]), 60))
+			ePlus.hostile("literal-cap/literal+", st, cs, hx.Hex([]byte(cs[0]), 60))
 			w.CaseStr(fmt.Sprintf("cap%d%s", i, st))
+			w.CaseStr(fmt.Sprintf("cap+%d%s", i, st))
 			w.Class("hostile/literal-cap/" + st)
+			w.Class("hostile/literal-cap-literal+/" + st)
 		}
 	}
 	// deep nesting: depths scaled up to 2*10^5 (64 MB stack bound in this process)
